@@ -395,7 +395,8 @@ fn decode_to_sink<Sink, A>(
             .max_utf8_buffer_length_without_replacement(input.len())
             .unwrap_or(8192);
         unsafe {
-            out.push_uninitialized(max_len.min(8192) as u32);
+            // encoding_rs needs at least 4 bytes of output space to guarantee progress
+            out.push_uninitialized(max_len.clamp(4, 8192) as u32);
         }
         let (result, bytes_read, bytes_written) =
             decoder.decode_to_utf8_without_replacement(&input, &mut out, last);
@@ -414,7 +415,9 @@ fn decode_to_sink<Sink, A>(
             },
         }
         input.pop_front(bytes_read as u32);
-        if input.is_empty() {
+        // At the end of the stream keep going until the decoder reports `InputEmpty`:
+        // it may still hold input it has consumed but not yet written out.
+        if input.is_empty() && !last {
             return;
         }
     }
